@@ -435,8 +435,10 @@ def run_readonly(spec, out):
                         snap = now
                         # bring the model back in line is not possible: stop this history
                         return
-                # every read through the view equals the read on the underlying store
-                for k in [""] + uni:
+                # every read through the view equals the read on the underlying store - and leaves it as it is
+                snap_reads = storecfg.snapshot(built)
+                missing_nested = "zz_missing/deeper/x.csv"
+                for k in [""] + uni + [built.prefix + missing_nested]:
                     for rname, rf in (("get_bytes", lambda s: s.get_bytes(k)), ("get_metadata", lambda s: _strip(s.get_metadata(k))),
                                       ("contains", lambda s: bool(s.contains(k))), ("is_dir", lambda s: bool(s.is_dir(k))),
                                       ("listdir", lambda s: _exact_listing(s.listdir(k))), ("keys", lambda s: sorted(s.keys())),
@@ -446,6 +448,10 @@ def run_readonly(spec, out):
                         b = _try(rf, view)
                         if a != b:
                             viol("%s differs from the underlying store" % rname, "key %r: underlying %r, view %r" % (k, a, b))
+                now = storecfg.snapshot(built)
+                if now != snap_reads:
+                    viol("a read through the view changed the underlying store", storecfg.diff_snap(snap_reads, now))
+                    return
         finally:
             built.close()
 
